@@ -533,6 +533,42 @@ func (h *hist) evCommit(s *session, fs []fault) (result, bool) {
 	return res, true
 }
 
+// evCommitTarget: a commit in which the first operation of the given kind (e.g. "lockreplace") gets
+// the fault f, wherever it comes in the sequence of operations. The event line carries the
+// positional fault list that this amounts to (what the model consumes), so it is written after the
+// event ran, in front of its observation lines.
+func (h *hist) evCommitTarget(s *session, kind string, f fault) (result, bool) {
+	if s == nil || s.dead || s.done || s.parked != "commit" {
+		return result{}, false
+	}
+	h.tick(nil)
+	if s.dead {
+		return result{}, false
+	}
+	h.stats["event|commit"]++
+	h.stats["target|"+kind+":"+f.String()]++
+	saved := h.sim.out
+	buf := &bytes.Buffer{}
+	h.sim.out = buf
+	h.sim.beginEvent(nil)
+	h.sim.targetKind, h.sim.targetFault, h.sim.targetPos = kind, f, -1
+	runSession(s, nil)
+	pos := h.sim.targetPos
+	h.sim.targetKind = ""
+	h.endEvent()
+	h.sim.out = saved
+	var fs []fault
+	if pos >= 0 {
+		fs = append(make([]fault, pos), f)
+	}
+	h.countFaults(fs)
+	h.logf("ev|commit|%d|%s", s.sid, faultsText(fs))
+	saved.Write(buf.Bytes())
+	res := h.answer(s, "commit")
+	h.mon.monotone(h.sim)
+	return res, true
+}
+
 func (h *hist) evRestart() {
 	h.logf("ev|restart")
 	h.stats["event|restart"]++
